@@ -244,6 +244,12 @@ def r5(ctx: Context) -> None:
                     recv = ast.unparse(call.func.value)
                     if recv.startswith(("'", '"')) or "path" in recv:
                         continue
+                    # key by the attribute path, not by the name of the local variable holding the object
+                    root = call.func.value
+                    while isinstance(root, (ast.Attribute, ast.Subscript, ast.Call)):
+                        root = root.value if not isinstance(root, ast.Call) else root.func
+                    recv_key = recv[len(root.id):] if isinstance(root, ast.Name) and root.id != "self" else recv
+                    recv_key = recv_key or "<local>"
                     n += 1
                     timed = bool(call.args) or any(k.arg == "timeout" for k in call.keywords)
                     after_kill = False
@@ -256,7 +262,7 @@ def r5(ctx: Context) -> None:
                         # joined right after kill() (either dominated by it, or kill is attempted in a try just before)
                         after_kill = bool(kills) and all(any(kn.id < j.id for k in kills for kn in cfg_node_of(g, m.node, k, pm)) for j in jn)
                     ok = timed or after_kill
-                    ctx.add("R5", f"{m.qualname}::{call_name(call)}({recv})", ok, m.loc(call),
+                    ctx.add("R5", f"{m.qualname}::{call_name(call)}({recv_key})", ok, m.loc(call),
                             "" if ok else f"{recv}.{call_name(call)}() without timeout on the stop path: a task thread whose result-wait loop only tests the awaited invocation's status (DistributedInvocation.result) never ends once the runner stopped polling, so the stop never completes and the remaining entries are never released")
     ctx.floor("R5", "waits on stop paths", n, 3)
     # does the result-wait loop observe the stop flag? (reported as part of the same finding)
